@@ -1091,8 +1091,19 @@ def c04_monitor(case, obs, flavor):
         seg_ev = None
         skipped = []
         raised_pending = []
+        open_tx = None          # first record of a transition (exit / transition action) whose `#t:` is still to come
+        clean = not o["E"] and not o.get("X")   # no transition failed in this call (a failed one never reports `#t:`)
         for at, r in enumerate(T):
+            if r.startswith("#t:"):
+                open_tx = None
+            elif r.startswith(("tr:", "alw:", "ex:", "done:")) and open_tx is None:
+                open_tx = (at, r)
             if r.startswith("#recv:"):
+                if open_tx is not None and clean:
+                    # run-to-completion: an event is dequeued only between transitions, never inside one
+                    bad("macrosteps-interleaved", i, f"{r[6:]!r} received at record {at} inside the transition that began with "
+                        f"{open_tx[1]!r} at record {open_tx[0]} and had not completed (no on_transition yet)")
+                open_tx = None
                 e = r[6:]
                 seg_ev = e
                 if op != "produce" and e in ext:
